@@ -1,10 +1,13 @@
 #!/bin/bash
 # seed_matrix.sh: run every check against every seeded change (applied to /repo, undone afterwards);
 # writes /verif/seeded/matrix.tsv: seed <TAB> check <TAB> exit <TAB> violations <TAB> nofailing <TAB> known
+# usage: seed_matrix.sh            all seeds, matrix.tsv rewritten
+#        seed_matrix.sh C03 C17    only these rows are replaced
 out=/verif/seeded/matrix.tsv
-: > $out
-for sdir in /verif/seeded/C*/; do
-  sid=$(basename $sdir)
+if [ $# -eq 0 ]; then : > $out; seeds=$(ls -d /verif/seeded/C*/ | xargs -n1 basename); else
+  seeds="$@"; for s in $seeds; do grep -v "^$s[[:space:]]" $out | grep -v "^done$" > $out.tmp; mv $out.tmp $out; done; fi
+for sid in $seeds; do
+  sdir=/verif/seeded/$sid
   git -C /repo checkout -- . 
   git -C /repo apply $sdir/patch.diff || { echo "$sid apply-failed" >> $out; continue; }
   for c in C01 C02 C03 C04 C05 C06 C07 C08 C09 C10 C11 C12 C13 C14 C15 C16 C17 C18 C19 C20; do
@@ -18,4 +21,5 @@ for sdir in /verif/seeded/C*/; do
   git -C /repo checkout -- .
 done
 git -C /repo checkout -- .
+sort -o $out $out
 echo done >> $out
